@@ -784,8 +784,79 @@ pub fn run_c11(ctx: &Ctx) -> Outcome {
         "range_ends".into(),
         json!({"T==min": out.stats.get("T == min (lower end hit)"), "T==max-1": out.stats.get("T == max-1 (upper end hit)"), "T==max": out.stats.get("T == max")}),
     );
+    if !out.failed() {
+        target_probe(ctx, &mut out, ctx.n(40_000, 1_000_000) as usize);
+    }
     history_shards(ctx, &mut out, ctx.n(2_000, 40_000));
     out
+}
+
+/// C11, wide ranges: a range of 2^16 .. usize::MAX opcodes cannot be generated to the end in a check (a pickle of
+/// 66 000 opcodes takes half a minute), but the draw of T can be observed: the generation is started with an
+/// emission budget of a few opcodes (hook `fuel`), which ends it shortly after the target was recorded by the trace
+/// hook. Oracle: min <= T <= max for the T the generator committed itself to. Non-trivial = the range is wider
+/// than 65 535.
+fn target_probe(ctx: &Ctx, out: &mut Outcome, n: usize) {
+    use proptest::prelude::*;
+    let width = prop_oneof![
+        4 => 65_536usize..200_000,
+        2 => (16u32..63).prop_map(|k| 1usize << k),
+        2 => (16u32..63, 0usize..70_000).prop_map(|(k, d)| (1usize << k) + d),
+        1 => (17u32..64, 1usize..70_000).prop_map(|(k, d)| (1usize << k) - d),
+        1 => 1usize..65_536,
+    ];
+    let min = prop_oneof![3 => 0usize..400, 1 => Just(0usize), 1 => 0usize..1 << 40];
+    let entropy = prop_oneof![
+        2 => any::<u64>().prop_map(Entropy::Seed),
+        3 => crate::case::bytes_entropy().prop_map(Entropy::Bytes),
+        1 => proptest::collection::vec(prop_oneof![Just(0u8), Just(0xffu8), Just(1u8), Just(0x80u8), any::<u8>()], 0..24).prop_map(Entropy::Bytes),
+    ];
+    let strat = (0u8..6, min, width, entropy).boxed();
+    let items = crate::props::frontends::materialise(&strat, ctx.seed, 111, n);
+    let (st, found) = crate::runner::run_enum(items, |(p, min, width, e), st| {
+        let mut c = GenCase::default_for(*p, 0);
+        c.entropy = e.clone();
+        c.min_opcodes = *min;
+        c.max_opcodes = min.saturating_add(*width);
+        let Some(t_) = probe_target(&c)? else {
+            st.label("wide range: generation ended before the target was drawn (skipped; C09 decides)");
+            return Ok(());
+        };
+        st.add("wide-range target draws judged", 1);
+        if *width > 65_535 {
+            st.label("wide range (> 65 535): T within [min, max]");
+            if t_ - c.min_opcodes > 65_535 {
+                st.label("wide range: T - min > 65 535");
+            }
+            st.nontrivial(crate::util::digest_str(&format!("{} {} {} {}", p, min, width, t_)));
+        }
+        Ok(())
+    });
+    out.stats.merge(st);
+    if let Some(((p, min, width, e), f)) = found {
+        let mut c = GenCase::default_for(p, 0);
+        c.entropy = e;
+        c.min_opcodes = min;
+        c.max_opcodes = min.saturating_add(width);
+        out.violation = Some(Violation { fail: f, case: json!({"wide_range_case": c}) });
+    }
+}
+
+/// starts one generation with an emission budget of a few opcodes and returns the target T it committed itself to
+/// (None: it ended before drawing one); Err if T is outside [min, max]
+pub fn probe_target(c: &GenCase) -> Result<Option<usize>, Fail> {
+    let mut g = c.build(None);
+    verif::start(verif::TraceCfg { fuel: Some(24), draw_fuel: Some(2_000_000), ..Default::default() });
+    let _ = crate::case::call_gen(&mut g, &c.entropy);
+    let tr = verif::take();
+    if !tr.started {
+        return Ok(None);
+    }
+    let t_ = tr.target_opcodes;
+    if t_ < c.min_opcodes || t_ > c.max_opcodes {
+        return Err(Fail::new("target-out-of-range", format!("T={} not in [{}, {}] (range width {})", t_, c.min_opcodes, c.max_opcodes, c.max_opcodes - c.min_opcodes)));
+    }
+    Ok(Some(t_))
 }
 
 pub fn replay_judge(ctx: &Ctx, judge: Judge, want: Want, case: &GenCase) -> Result<(), Fail> {
